@@ -51,6 +51,9 @@ let openp (z : Model.z) : Model.page Model.res =
    (dirty flag, header, page cache, resolveDirty): [store_model] selects it;
    the state lives across `reload`s like a long-lived handle's *)
 let store_model = ref false
+(* high level commands: the schema record is computed from the file by the model itself (Model/E2E.v);
+   VERIF_SCHEMA=dump makes it take the implementation's dump given in the command instead *)
+let schema_e2e = (try Sys.getenv "VERIF_SCHEMA" <> "dump" with Not_found -> true)
 let dbst : Model.dbstate ref = ref Model.init_state
 let image : Model.byte list ref = ref []
 let journal_bytes : Model.byte list option ref = ref None
@@ -285,7 +288,7 @@ let () =
       end
       else begin
         if !store_model && line.[0] = 'h' then dbst := Model.rlock !dbst;
-        let out = Model.run_line_with pager the_store (nat_of_int (Array.length !pages)) (bytes_of_string line) in
+        let out = (if schema_e2e then Model.run_line_e2e else Model.run_line_with) pager the_store (nat_of_int (Array.length !pages)) (bytes_of_string line) in
         List.iter (fun l -> print_endline (string_of_bytes l)) out
       end
     done
